@@ -20,12 +20,13 @@ func init() { register("C32", "exploration", runC32) }
 func runC32(c *ev.Ctx) {
 	c.Rule = "16-bit: ALL values and all adjacent pairs; 32-bit: all values in thorough (2^32, sharded), in quick the boundary neighbourhoods of every byte carry plus 2*10^6 random values and pairs; 64-bit: boundaries of every byte carry plus random values and pairs; every idx type (Epoch, Event, Block, Lamport, Pack, ValidatorID, Frame) through its own Bytes/BytesTo pair; " +
 		"big-endian: decode(encode(v)) == v, length fixed, bytes.Compare(enc(a),enc(b)) has the sign of a<=>b; little-endian: decode(encode(v)) == v and byte layout equals the standard library's; event IDs built by MutableBaseEvent.SetID and Build carry epoch and Lamport (ID.Epoch(), ID.Lamport()) and sort byte-wise by (epoch, Lamport). " +
-		"Ownership: every encoding handed out is extended (append, as composite keys are built) and partly overwritten by the caller over windows of consecutive values, after which all values of the window still round-trip; several events built from one reused mutable event keep the ID, epoch, Lamport, seq and creator they were built with. " +
+		"Ownership: every encoding handed out is extended (append, as composite keys are built) and partly overwritten by the caller over windows of consecutive values, after which all values of the window still round-trip; lists of IDs with mixed epochs sorted by hash.OrderedEvents.ByEpochAndLamport come out in (epoch, Lamport, ID) order; several events built from one reused mutable event keep the ID, epoch, Lamport, seq and creator they were built with. " +
 		"non-trivial = distinct value pairs whose encodings differ in a byte other than the last (a carry crossed a byte boundary)"
 	c.Assumptions = []string{"order is compared with bytes.Compare on equal-length encodings"}
 	c.Exhaustive = false
 	fail := func(class string, kv map[string]interface{}) { c.Violation(class, kv) }
 	c32Aliasing(c)
+	c32SortedIDs(c)
 	// ---- 16 bit exhaustive
 	for v := 0; v <= 0xffff; v++ {
 		x := uint16(v)
